@@ -15,6 +15,7 @@
 -/
 import CprocVerif.Spec.Qbe
 import CprocVerif.Spec.QbeWf
+import CprocVerif.Lemmas.QbeClsStep
 
 namespace CprocVerif.C03
 open CprocVerif.Qbe
@@ -1004,5 +1005,125 @@ theorem wf_labels_static (m : Module) (h : wf m = .ok ()) (f : Func) (hf : f ∈
   cases hx : (FuncInfo.of f).labelIdx[l]? with
   | none => rw [hx] at this; cases this
   | some i => exact ⟨i, rfl⟩
+
+
+/-! ## Classes
+
+  The class rules of `wf` (opcode/result-class table, operand classes, jnz, phis, call arguments
+  against the callee's signature, returned values against the return type, call results against
+  the callee's return type) are sound as well: the run-time typing invariant `Cls.EnvTyped` —
+  every bound temporary holds a value of the class recorded for it in the static class map
+  `Cls.tcOf f`, which is the map `wfFuncPre` builds — is preserved by every step, and no run ends
+  in a class mismatch (`Cls.ClassStuck`), except possibly at an INDIRECT call: the callee of
+  `call %t(...)` is a computed address, QBE IL has no function types, and no static check can
+  compare such a call with the signature of the function it reaches (in C: a call through a
+  function pointer of an incompatible type is undefined behaviour). -/
+
+/-- The assumption on external functions: see `Cls.ExtOkP`. -/
+def ExtOk (m : Module) (ext : Ext) : Prop := Cls.ExtOkP (Prog.ofModule m) m.funcs ext
+
+/-- All call instructions of the module name their callee (`call $f(...)`). -/
+def DirectCalls (m : Module) : Prop := Cls.DirectCallsL m.funcs
+
+theorem wf_ctx {m : Module} (h : wf m = .ok ()) :
+    Cls.Ctx (Prog.ofModule m) m.funcs (Cls.sigsOf m) := by
+  refine ⟨fun f hf => Cls.wf_funcCls h f hf, ?_⟩
+  intro name fi hfi
+  have hfi' : (mkFuncTable m.funcs)[name]? = some fi := hfi
+  obtain ⟨h1, h2⟩ := Cls.sigs_funcs m.funcs name
+  obtain ⟨hmem, _, _⟩ := h2 fi hfi'
+  refine ⟨hmem, ?_⟩
+  show (Cls.sigsOf m)[name]? = some fi.f.sig
+  unfold Cls.sigsOf
+  rw [h1, hfi']
+  rfl
+
+theorem wf_argsOk {m : Module} {name : String} {args : List (Ty × RVal)}
+    (hargs : ∀ f ∈ m.funcs, f.name = name → Cls.ArgsOk f args) :
+    ∀ fi, (Prog.ofModule m).funcs[name]? = some fi → Cls.ArgsOk fi.f args := by
+  intro fi hfi
+  have hfi' : (mkFuncTable m.funcs)[name]? = some fi := hfi
+  obtain ⟨hmem, _, hname⟩ := (Cls.sigs_funcs m.funcs name).2 fi hfi'
+  exact hargs _ hmem hname
+
+/-- **Static class correctness.**  In a well-formed module every instruction, jump and phi of every
+    function uses its operands at classes that the static class map allows, the opcode exists with
+    the named result class, and every direct call agrees with the signature of its callee. -/
+theorem wf_classes_static (m : Module) (h : wf m = .ok ()) (f : Func) (hf : f ∈ m.funcs) :
+    Cls.FuncCls (Cls.sigsOf m) f :=
+  Cls.wf_funcCls h f hf
+
+/-- **Preservation.**  A step of a well-formed module from a typed state (every frame executes a
+    function of the module, every bound temporary holds a value of its class, adjacent frames are
+    linked by a call instruction) leads to a typed state. -/
+theorem wf_classes_preserved (m : Module) (h : wf m = .ok ()) (ext : Ext) (hext : ExtOk m ext)
+    (s s' : State) (hs : Cls.StackT m.funcs (Cls.sigsOf m) s.frames)
+    (hstep : step (Prog.ofModule m) ext s = .next s') :
+    Cls.StackT m.funcs (Cls.sigsOf m) s'.frames := by
+  have := Cls.step_typed (ext := ext) (wf_ctx h) hext hs
+  rw [hstep] at this
+  exact this
+
+/-- **Progress for classes, general form.**  If a run of a function of a well-formed module — on
+    arguments that fit its signature, with external functions satisfying `ExtOk` — ends in a class
+    mismatch, then the machine stopped at an indirect call (about to execute one, or returning to
+    one). -/
+theorem wf_sound_classes_at (m : Module) (h : wf m = .ok ()) (ext : Ext) (hext : ExtOk m ext)
+    (name : String) (args : List (Ty × RVal))
+    (hargs : ∀ f ∈ m.funcs, f.name = name → Cls.ArgsOk f args) (fuel : Nat)
+    (hstuck : Cls.ClassStuck (runFunc (Prog.ofModule m) ext name args fuel).end) :
+    ∃ s₀, initState (Prog.ofModule m) name args = .ok s₀ ∧
+      Cls.IndirectSite (Cls.lastState (Prog.ofModule m) ext fuel s₀) := by
+  have hc := wf_ctx h
+  obtain ⟨hok, herr⟩ := Cls.initState_typed hc (wf_argsOk hargs)
+  unfold runFunc at hstuck
+  cases hi : initState (Prog.ofModule m) name args with
+  | error e =>
+    rw [hi] at hstuck
+    exact absurd hstuck (herr e hi)
+  | ok s₀ =>
+    rw [hi] at hstuck
+    exact ⟨s₀, rfl, Cls.run_typed hc hext fuel (hok s₀ hi) hstuck⟩
+
+/-- The full-strength statement: no restriction on indirect calls.  It does not hold (an indirect
+    call can reach a function whose signature differs from the types written at the call, and `wf`
+    — like any static check of QBE IL — accepts such a module); `wf_sound_classes_at` says that
+    this is the only way it fails. -/
+def wf_sound_classes_full : Prop :=
+  ∀ (m : Module), wf m = .ok () → ∀ (ext : Ext), ExtOk m ext →
+  ∀ (name : String) (args : List (Ty × RVal)),
+    (∀ f ∈ m.funcs, f.name = name → Cls.ArgsOk f args) →
+  ∀ (fuel : Nat), ¬ Cls.ClassStuck (runFunc (Prog.ofModule m) ext name args fuel).end
+
+/-- **Soundness of `wf` for classes** — for modules whose calls are all direct: running any
+    function on arguments that fit its signature, with any fuel and any external functions
+    satisfying `ExtOk`, never ends in a class mismatch (operand, result, jnz/phi/store operand,
+    argument/parameter, returned value or call result of the wrong class). -/
+theorem wf_sound_classes_partial (m : Module) (h : wf m = .ok ()) (hd : DirectCalls m) (ext : Ext)
+    (hext : ExtOk m ext) (name : String) (args : List (Ty × RVal))
+    (hargs : ∀ f ∈ m.funcs, f.name = name → Cls.ArgsOk f args) (fuel : Nat) :
+    ¬ Cls.ClassStuck (runFunc (Prog.ofModule m) ext name args fuel).end := by
+  intro hstuck
+  obtain ⟨s₀, hi, hsite⟩ := wf_sound_classes_at m h ext hext name args hargs fuel hstuck
+  have hc := wf_ctx h
+  have hs0 := (Cls.initState_typed hc (wf_argsOk hargs)).1 s₀ hi
+  exact Cls.no_indirectSite hd (Cls.lastState_typed hc hext fuel hs0) hsite
+
+/-- `wf_sound` and `wf_sound_classes_partial` together. -/
+theorem wf_sound_full_partial (m : Module) (h : wf m = .ok ()) (hd : DirectCalls m) (ext : Ext)
+    (hext : ExtOk m ext) (name : String) (args : List (Ty × RVal))
+    (hargs : ∀ f ∈ m.funcs, f.name = name → Cls.ArgsOk f args) (fuel : Nat) :
+    ¬ BadStuck (runFunc (Prog.ofModule m) ext name args fuel).end ∧
+    ¬ Cls.ClassStuck (runFunc (Prog.ofModule m) ext name args fuel).end :=
+  ⟨wf_sound m h ext name args fuel, wf_sound_classes_partial m h hd ext hext name args hargs fuel⟩
+
+/-- The same from any typed state (e.g. in the middle of an execution). -/
+theorem wf_sound_classes_from (m : Module) (h : wf m = .ok ()) (hd : DirectCalls m) (ext : Ext)
+    (hext : ExtOk m ext) (s : State) (hs : Cls.StackT m.funcs (Cls.sigsOf m) s.frames)
+    (fuel : Nat) : ¬ Cls.ClassStuck (run (Prog.ofModule m) ext fuel s).end := by
+  intro hstuck
+  have hc := wf_ctx h
+  exact Cls.no_indirectSite hd (Cls.lastState_typed hc hext fuel hs)
+    (Cls.run_typed hc hext fuel hs hstuck)
 
 end CprocVerif.C03
